@@ -58,7 +58,8 @@ class SolView(object):
         key = (meth, tuple(a.id if isinstance(a, T) else a for a in args), extra)
         if key in self.terms:
             return self.terms[key]
-        fn = self.w.method(self.sol, meth, len(args), extra)
+        # resolved as the API's virtual call resolves it (a member that does not override the base declaration is not reached)
+        fn = self.w.dispatch(self.sol, meth, len(args), extra)
         if fn not in self.w.prog.functions:
             raise KeyError(fn)
         paths = self.w.run_paths(self.st, fn, [self.sol['ptr']] + list(args) + list(extra_args), max_paths)
@@ -133,8 +134,12 @@ def make_replay(chk, view, meth, argsyms, lib, ref, ranges=None, int_args=(), th
         coords = [a.p for a in argsyms if isinstance(a, T) and a.op == 'sym']
         steps = [('init', view.scalar, 'h', view.name)]
         envs = []
-        for i in range(5):
+        for i in range(6):
             env = rand_env(rng, names, coords, ranges)
+            if i == 5:
+                # same point as the previous evaluation, other parameter values (anything remembered per point would show)
+                for c_ in coords:
+                    env[c_] = envs[4][c_]
             if i < 2 and model:
                 # start from the solver's counterexample: its parameter values (point i=0: also its coordinates), the rest generic.
                 # Special parameter values (a coefficient that is exactly 0, two equal parameters) matter for guarded code paths.
@@ -157,8 +162,11 @@ def make_replay(chk, view, meth, argsyms, lib, ref, ranges=None, int_args=(), th
             e = {k: rp.mp.mpf(v.numerator) / rp.mp.mpf(v.denominator) for k, v in env.items()}
             try:
                 rv = tm.evalf([ref], e, rp.mp)[0]
-                lv = tm.evalf([lib], e, rp.mp)[0]
                 M = magnitude(ref, e) + abs(rv)
+                try:
+                    lv = tm.evalf([lib], e, rp.mp)[0]
+                except KeyError:
+                    lv = None       # the library term mentions state no API call sets (remembered values): only the real library's value counts
             except Exception as ex:
                 detail.append('point %d: reference not evaluable (%r)' % (i, ex))
                 continue
@@ -166,10 +174,11 @@ def make_replay(chk, view, meth, argsyms, lib, ref, ranges=None, int_args=(), th
             if got is None or not rp.mp.isfinite(got) or not rp.mp.isfinite(rv):
                 detail.append('point %d: non-finite (lib=%s ref=%s)' % (i, got, rv))
                 continue
-            chk.validation['points'] += 1
-            if abs(got - lv) > Fraction(1, 10 ** 9) * (M + abs(lv)):
-                chk.validation['mismatches'] += 1
-                chk.infra.append('ENCODING MISMATCH %s %s: term=%s library=%s' % (view.name, meth, rp.mp.nstr(lv, 20), rp.mp.nstr(got, 20)))
+            if lv is not None:
+                chk.validation['points'] += 1
+                if abs(got - lv) > Fraction(1, 10 ** 9) * (M + abs(lv)):
+                    chk.validation['mismatches'] += 1
+                    chk.infra.append('ENCODING MISMATCH %s %s: term=%s library=%s' % (view.name, meth, rp.mp.nstr(lv, 20), rp.mp.nstr(got, 20)))
             d = abs(got - rv)
             if d > threshold * M:
                 worst = (i, got, rv, M)
